@@ -186,8 +186,32 @@ int main(int argc, char** argv) {
 		} else {
 			ProgBuf p; auto b = vf::unhex(r.at("program").s); memcpy(p.b, b.data(), std::min(b.size(), ProgBytes));
 			bool v2 = r.at("v2").b;
-			if (r.at("kind").s == "step") { c.load_image((int)r.at("sp_image").num()); d = c.decode(p, v2); if (d.empty()) d = c.step((int)r.at("slot").num(), (unsigned)r.at("state").num(), v2, R, true, (int)r.at("special").num()); }
-			else { bool light = r.at("light").b; auto E = make_engine(light ? 0 : RANDOMX_FLAG_FULL_MEM, cache, &g_ds); fill_scratchpad(E->scratchpad(), (int)r.at("sp_image").num()); d = run_program_pair(c, *E, p, v2, (unsigned)r.at("fprc").num(), light, &sc, R); }
+			// first from a clean state; if the case does not show there and the replay names its unit, re-run the unit's prefix in
+			// the original order (a defect may depend on what was decoded / executed before - that is a defect, not a harness error)
+			auto find_fam = [&](const std::vector<Family>& F) -> const Family* { for (auto& x : F) if (x.name == r.at("family").s) return &x; return nullptr; };
+			int image = (int)r.at("sp_image").num(); uint64_t index = (uint64_t)r.at("index").num();
+			if (r.at("kind").s == "step") {
+				c.load_image(image); d = c.decode(p, v2); if (d.empty()) d = c.step((int)r.at("slot").num(), (unsigned)r.at("state").num(), v2, R, true, r.has("special") ? (int)r.at("special").num() : -1);
+				const Family* f = find_fam(fam);
+				if (d.empty() && f && r.has("unit_begin")) {
+					Ctx c2; c2.load_image(image); ProgBuf q;
+					for (uint64_t idx = (uint64_t)r.at("unit_begin").num(); idx <= index && d.empty(); ++idx) {
+						f->make(idx, v2, q); d = c2.decode(q, v2); int N = prog_size(v2);
+						for (int s2 = 0; s2 < N && d.empty(); ++s2) for (int k = 0; k < per_slot && d.empty(); ++k) { unsigned sid = (unsigned)((idx * 7 + s2 * 13 + k * 61 + q.word(s2).mod) % NST); d = c2.step(s2, sid, v2, R, false, k); }
+						if (idx < index) d.clear();   // earlier violations of the same unit are reported on their own
+					}
+					if (!d.empty()) d += " [reproduces only after the unit's preceding programs: history-dependent]";
+				}
+			} else {
+				bool light = r.at("light").b; unsigned fprc = (unsigned)r.at("fprc").num();
+				{ auto E = make_engine(light ? 0 : RANDOMX_FLAG_FULL_MEM, cache, &g_ds); fill_scratchpad(E->scratchpad(), image); d = run_program_pair(c, *E, p, v2, fprc, light, &sc, R); }
+				const Family* f = find_fam(famp);
+				if (d.empty() && f && r.has("unit_begin")) {
+					Ctx c2; auto E = make_engine(light ? 0 : RANDOMX_FLAG_FULL_MEM, cache, &g_ds); fill_scratchpad(E->scratchpad(), image); ProgBuf q;
+					for (uint64_t idx = (uint64_t)r.at("unit_begin").num(); idx <= index; ++idx) { f->make(idx, v2, q); d = run_program_pair(c2, *E, q, v2, (unsigned)(idx % 4), light, &sc, R); if (idx < index) { if (!d.empty()) fill_scratchpad(E->scratchpad(), image); d.clear(); } }
+					if (!d.empty()) d += " [reproduces only after the unit's preceding programs: history-dependent]";
+				}
+			}
 		}
 		printf("replay: %s\n", d.empty() ? "matches the specification" : d.c_str());
 		return d.empty() ? 0 : 1;
@@ -243,10 +267,10 @@ int main(int argc, char** argv) {
 						if (outcomes.size() < 100000) outcomes.insert(vf::fnv(c.nreg.r, 64) ^ vf::fnv(c.nreg.f, 128));
 						if (!d.empty()) {
 							vf::Violation v; v.key = std::string("c05:step:") + spec::itype_name(c.pc.ins[s].type); v.what = std::string("step ") + (un.v2 ? "v2 " : "v1 ") + word_json(p.word(s)).s + " state " + std::to_string(sid) + ": " + d;
-							v.replay = step_json(f.name.c_str(), idx, s, sid, un.v2, image, p, k); R.viol.push_back(v); break;
+							v.replay = step_json(f.name.c_str(), idx, s, sid, un.v2, image, p, k).set("unit_begin", (unsigned long long)un.b); R.viol.push_back(v); break;
 						}
 					}
-					if (!d.empty() && R.viol.empty()) { vf::Violation v; v.key = "c05:config"; v.what = d; v.replay = step_json(f.name.c_str(), idx, 0, 0, un.v2, image, p); R.viol.push_back(v); }
+					if (!d.empty() && R.viol.empty()) { vf::Violation v; v.key = "c05:config"; v.what = d; v.replay = step_json(f.name.c_str(), idx, 0, 0, un.v2, image, p).set("unit_begin", (unsigned long long)un.b); R.viol.push_back(v); }
 					R.n["step_programs"]++;
 					if (idx == un.b && u < 200) R.sample(step_json(f.name.c_str(), idx, 3, 5, un.v2, image, p).set("program", "..."), 2);
 				}
@@ -261,7 +285,7 @@ int main(int argc, char** argv) {
 					if (!d.empty()) {
 						vf::Violation v; v.key = "c05:program:" + f.name; v.what = std::string("program ") + (un.v2 ? "v2 " : "v1 ") + f.name + " #" + std::to_string(idx) + (un.light ? " light: " : " fast: ") + d;
 						// replay from a clean image if it reproduces there
-						v.replay = vf::Json::obj().set("kind", "program").set("profile", RX_PROFILE).set("family", f.name).set("index", (unsigned long long)idx).set("v2", un.v2).set("light", un.light).set("fprc", (int)fprc).set("sp_image", image).set("program", vf::hex(p.b, ProgBytes));
+						v.replay = vf::Json::obj().set("kind", "program").set("profile", RX_PROFILE).set("family", f.name).set("index", (unsigned long long)idx).set("v2", un.v2).set("light", un.light).set("fprc", (int)fprc).set("sp_image", image).set("program", vf::hex(p.b, ProgBytes)).set("unit_begin", (unsigned long long)un.b);
 						R.viol.push_back(v); fill_scratchpad(E->scratchpad(), image);
 					}
 				}
